@@ -127,6 +127,12 @@ class Beam(_Simu):
 
     useTimoshenko: bool = _params.BoolParameter()
 
+    def _Adapt_loaded_mesh(self, mesh: "Mesh") -> "Mesh":
+        # a mesh file holds SEG groups: rebuild the beam groups, as the constructor does
+        if self.useTimoshenko:
+            return _Construct_Timoshenko_mesh(mesh)
+        return _Construct_Euler_Bernoulli_mesh(mesh)
+
     def Results_nodeFields_elementFields(
         self, details=False
     ) -> tuple[list[str], list[str]]:
